@@ -691,6 +691,240 @@ func checkUnpadDyn(c *Ctx, rule string, f *ssa.Function, data ssa.Value, bs int6
 			}
 		}
 	}
+	// general form: any counted loop (either direction, any start) whose compared element positions, as linear forms
+	// over LEN = len(data) and PAD, run exactly from LEN-PAD to LEN-1
+	if !okLoop {
+		var lf func(v ssa.Value, depth int) (linForm, bool)
+		sym := func(name string) linForm { return linForm{coef: map[string]int64{name: 1}} }
+		lf = func(v ssa.Value, depth int) (linForm, bool) {
+			if depth > 10 {
+				return linForm{}, false
+			}
+			if k, ok := constInt(v); ok {
+				return linForm{k: k, coef: map[string]int64{}}, true
+			}
+			if in, ok := v.(ssa.Instruction); ok && isPad(stripConvAll(v), in) {
+				return sym("PAD"), true
+			}
+			if isLenOf(v, isData) {
+				return sym("LEN"), true
+			}
+			switch x := v.(type) {
+			case *ssa.Convert:
+				return lf(x.X, depth+1)
+			case *ssa.ChangeType:
+				return lf(x.X, depth+1)
+			case *ssa.BinOp:
+				if x.Op == token.ADD || x.Op == token.SUB {
+					a, ok1 := lf(x.X, depth+1)
+					b, ok2 := lf(x.Y, depth+1)
+					if ok1 && ok2 {
+						if x.Op == token.ADD {
+							return a.add(b, 1), true
+						}
+						return a.add(b, -1), true
+					}
+				}
+			case *ssa.Call:
+				// len(data[lo:]) / len(data[lo:hi])
+				if bi, ok := x.Call.Value.(*ssa.Builtin); ok && bi.Name() == "len" {
+					if sl, ok := x.Call.Args[0].(*ssa.Slice); ok && isData(sl.X) {
+						hi, lo := sym("LEN"), linForm{coef: map[string]int64{}}
+						okH, okL := true, true
+						if sl.High != nil {
+							hi, okH = lf(sl.High, depth+1)
+						}
+						if sl.Low != nil {
+							lo, okL = lf(sl.Low, depth+1)
+						}
+						if okH && okL {
+							return hi.add(lo, -1), true
+						}
+					}
+				}
+			}
+			return sym(fmt.Sprintf("%s@%p", v.Name(), v)), true
+		}
+		for _, h := range loopHeaders(f) {
+			if okLoop {
+				break
+			}
+			ifi, ok := lastIf(h)
+			if !ok {
+				continue
+			}
+			cmp, ok := ifi.Cond.(*ssa.BinOp)
+			if !ok {
+				continue
+			}
+			for _, p := range phisOf(h) {
+				if len(p.Edges) != 2 {
+					continue
+				}
+				// init edge from outside, step edge phi±1 from inside
+				var init ssa.Value
+				step := int64(0)
+				for i, e := range p.Edges {
+					a := affineOf(e)
+					if h.Dominates(h.Preds[i]) && len(a.coef) == 1 && a.coef[p] == 1 && (a.k == 1 || a.k == -1) {
+						step = a.k
+					} else if !h.Dominates(h.Preds[i]) {
+						init = e
+					}
+				}
+				if init == nil || step == 0 {
+					continue
+				}
+				// the loop test on p (or on p+1, the range form): first and last value of the counter
+				tested := affineOf(cmp.X)
+				boundV := cmp.Y
+				op := cmp.Op
+				if len(tested.coef) != 1 || tested.coef[p] != 1 {
+					tested = affineOf(cmp.Y)
+					boundV = cmp.X
+					switch op {
+					case token.LSS:
+						op = token.GTR
+					case token.LEQ:
+						op = token.GEQ
+					case token.GTR:
+						op = token.LSS
+					case token.GEQ:
+						op = token.LEQ
+					}
+				}
+				if len(tested.coef) != 1 || tested.coef[p] != 1 {
+					continue
+				}
+				first, ok1 := lf(init, 0)
+				bound, ok2 := lf(boundV, 0)
+				if !ok1 || !ok2 {
+					continue
+				}
+				// the body runs for counter values c with (c + tested.k) op bound; range loops test p+1 and use p+1
+				shift := linForm{k: tested.k, coef: map[string]int64{}}
+				first = first.add(shift, 1) // value of the tested expression in the first iteration
+				one := linForm{k: 1, coef: map[string]int64{}}
+				var last linForm
+				switch {
+				case step == 1 && op == token.LSS:
+					last = bound.add(one, -1)
+				case step == 1 && op == token.LEQ:
+					last = bound
+				case step == -1 && op == token.GTR:
+					last = bound.add(one, 1)
+				case step == -1 && op == token.GEQ:
+					last = bound
+				default:
+					continue
+				}
+				// `first`/`last` are values of t = p + tested.k; the loop leaves only by the test or by a rejection
+				inLoop := map[*ssa.BasicBlock]bool{h: true}
+				for _, b := range f.Blocks {
+					if h.Dominates(b) && b != h && reach([]*ssa.BasicBlock{b}, nil)[h] {
+						inLoop[b] = true
+					}
+				}
+				exSucc := successExits(f, spec)
+				early := false
+				for b := range inLoop {
+					for si, sc := range b.Succs {
+						if inLoop[sc] || (b == h && si == 1) {
+							continue
+						}
+						e := edge{b, sc}
+						if r, _ := canReachSuccess(sc, &e, exSucc, nil); r {
+							early = true
+						}
+					}
+				}
+				if early {
+					why = "the pad-checking loop can be left before all pad bytes were compared and still succeed"
+					continue
+				}
+				for b := range inLoop {
+					if b == h {
+						continue
+					}
+					ifi2, ok := lastIf(b)
+					if !ok {
+						continue
+					}
+					c2, ok := ifi2.Cond.(*ssa.BinOp)
+					if !ok || (c2.Op != token.NEQ && c2.Op != token.EQL) {
+						continue
+					}
+					ps := 1
+					if c2.Op == token.EQL {
+						ps = 0
+					}
+					everyIter := true
+					for _, pr := range h.Preds {
+						if h.Dominates(pr) && !b.Dominates(pr) {
+							everyIter = false
+						}
+					}
+					base, idx, isLd := loadOfIndex(stripConvAll(c2.X))
+					other := c2.Y
+					if !isLd {
+						base, idx, isLd = loadOfIndex(stripConvAll(c2.Y))
+						other = c2.X
+					}
+					if !isLd || !everyIter || !isPad(stripConvAll(other), ifi2) {
+						continue
+					}
+					// absolute position = low bound of the slice the element is taken from + index
+					off := linForm{coef: map[string]int64{}}
+					if sl, isSl := base.(*ssa.Slice); isSl && isData(sl.X) {
+						if sl.Low != nil {
+							o, ok := lf(sl.Low, 0)
+							if !ok {
+								continue
+							}
+							off = o
+						}
+					} else if !isData(base) {
+						continue
+					}
+					ia := affineOf(idx)
+					cp, has := ia.coef[p]
+					if !has || (cp != 1 && cp != -1) {
+						continue
+					}
+					rest := linForm{k: ia.k, coef: map[string]int64{}}
+					okRest := true
+					for v, cv := range ia.coef {
+						if v == ssa.Value(p) {
+							continue
+						}
+						l, ok := lf(v, 0)
+						if !ok || (cv != 1 && cv != -1) {
+							okRest = false
+							break
+						}
+						rest = rest.add(l, cv)
+					}
+					if !okRest {
+						continue
+					}
+					// counter value = t - tested.k
+					at := func(t linForm) linForm { return off.add(rest, 1).add(t.add(shift, -1), cp) }
+					a1, a2 := at(first), at(last)
+					lo := sym("LEN").add(sym("PAD"), -1)
+					hi := sym("LEN").add(one, -1)
+					if !((a1.equal(lo) && a2.equal(hi)) || (a1.equal(hi) && a2.equal(lo))) {
+						why = "the pad-byte loop does not run exactly over positions len-pad .. len-1"
+						continue
+					}
+					if r := evalReject(c.P, f, []Atom{{ifi2, ps, "pad byte equals pad"}}, spec); r.OK {
+						okLoop = true
+					} else {
+						why = r.Why
+					}
+				}
+			}
+		}
+	}
 	// alternative: bytes.Equal / ConstantTimeCompare against bytes.Repeat
 	for _, ifi := range ifsOf(f) {
 		if a, b, ps, ok := eqTest(ifi); ok {
